@@ -138,6 +138,10 @@ Proof.
   intros x Hx Hm. simpl in Hx. destruct Hx as [<-|[<-|[<-|[<-|[<-|[]]]]]]; cbn in Hm; try discriminate; cbn; discriminate.
 Qed.
 
+(* no cut kind allowed, W = 2: refused (the three active qubits form one component) *)
+Example c07_ex_refused_nocut : find_cuts_full 100 (ex_in false false 2) = Ref /\ settings_ok (ex_in false false 2) = true.
+Proof. split; [vm_compute; reflexivity|reflexivity]. Qed.
+
 (* tie to the source: the constants and tables hard-coded in Model/CutFinder*.v *)
 Theorem c07_facts :
   (inject_Z (Z.of_nat cf_left_wire_mult) = left_wire_mult /\
